@@ -33,8 +33,8 @@ Proof.
   induction ops as [|o ops IH]; simpl; intros s x Hn H; auto.
   assert (Hn' : ~ In OCompileStart ops) by (intros C; apply Hn; auto).
   destruct (IH _ _ Hn' H) as [H1 | H1]; [|auto].
-  destruct o as [p b d | r |]; simpl in H1.
-  - left. unfold touch in H1. destruct (cache_find b (t_cache s)) as [e|]; [destruct (by_path && negb (c_path e =? p)%string)|]; exact H1.
+  destruct o as [p b ver d | r |]; simpl in H1.
+  - left. unfold touch in H1. destruct (cache_find b (t_cache s)) as [e|]; [destruct (by_path && negb ((c_path e =? p)%string && Z.eqb (c_ver e) ver))|]; exact H1.
   - destruct (index_refs _ _ _ H1) as [H2 | ->]; auto.
   - exfalso. apply Hn. auto.
 Qed.
@@ -47,17 +47,7 @@ Proof.
   destruct (refs_since by_path ops _ x Hn H) as [H1 | H1]; [|exact H1]. simpl in H1. contradiction.
 Qed.
 
-(* ---- files: the cache entry of a base name after a run is the LAST touch of that name when validated by path *)
-Definition touched_last (ops : list sop) (base : string) : option (string * string) :=
-  fold_left (fun acc o => match o with
-                          | OTouch p b d => if String.eqb b base then
-                                              match acc with
-                                              | Some (p0, d0) => if String.eqb p0 p then Some (p0, d0) else Some (p, d)
-                                              | None => Some (p, d)
-                                              end
-                                            else acc
-                          | _ => acc end) ops None.
-
+(* ---- files: what the cache holds for a base name, step by step *)
 Lemma cache_find_put_same e c : cache_find (c_base e) (cache_put e c) = Some e.
 Proof.
   induction c as [|x c IH]; simpl.
@@ -75,35 +65,35 @@ Proof.
     + destruct (String.eqb (c_base x) b); auto.
 Qed.
 
-(* the state of one base name: what the cache holds for it *)
-Definition held (s : stabs) (base : string) : option (string * string) :=
-  option_map (fun e => (c_path e, c_text e)) (cache_find base (t_cache s)).
+(* the state of one base name: path, modification stamp and text held for it *)
+Definition held (s : stabs) (base : string) : option (string * Z * string) :=
+  option_map (fun e => (c_path e, c_ver e, c_text e)) (cache_find base (t_cache s)).
 
-Definition upd (acc : option (string * string)) (o : sop) (base : string) : option (string * string) :=
+Definition upd (acc : option (string * Z * string)) (o : sop) (base : string) : option (string * Z * string) :=
   match o with
-  | OTouch p b d => if String.eqb b base then
-                      match acc with
-                      | Some (p0, d0) => if String.eqb p0 p then Some (p0, d0) else Some (p, d)
-                      | None => Some (p, d)
-                      end
-                    else acc
+  | OTouch p b v d => if String.eqb b base then
+                        match acc with
+                        | Some (p0, v0, d0) => if String.eqb p0 p && Z.eqb v0 v then Some (p0, v0, d0) else Some (p, v, d)
+                        | None => Some (p, v, d)
+                        end
+                      else acc
   | _ => acc
   end.
 
 Lemma held_step resets s o base : held (tstep resets true s o) base = upd (held s base) o base.
 Proof.
-  destruct o as [p b d | r |]; simpl.
+  destruct o as [p b v d | r |]; simpl.
   - unfold touch, held. destruct (String.eqb b base) eqn:Eb.
     + apply String.eqb_eq in Eb. subst b.
       destruct (cache_find base (t_cache s)) as [e|] eqn:Ef; simpl.
-      * destruct (String.eqb (c_path e) p) eqn:Ep; simpl.
+      * destruct (String.eqb (c_path e) p && Z.eqb (c_ver e) v) eqn:Ep; simpl.
         -- rewrite Ef. simpl. reflexivity.
-        -- pose proof (cache_find_put_same {| c_base := base; c_path := p; c_text := d |} (t_cache s)) as H. simpl in H.
+        -- pose proof (cache_find_put_same {| c_base := base; c_path := p; c_ver := v; c_text := d |} (t_cache s)) as H. simpl in H.
            rewrite H. reflexivity.
-      * pose proof (cache_find_put_same {| c_base := base; c_path := p; c_text := d |} (t_cache s)) as H. simpl in H.
+      * pose proof (cache_find_put_same {| c_base := base; c_path := p; c_ver := v; c_text := d |} (t_cache s)) as H. simpl in H.
         rewrite H. reflexivity.
     + destruct (cache_find b (t_cache s)) as [e|] eqn:Ef; simpl.
-      * destruct (negb (String.eqb (c_path e) p)); simpl; [|reflexivity].
+      * destruct (negb (String.eqb (c_path e) p && Z.eqb (c_ver e) v)); simpl; [|reflexivity].
         rewrite cache_find_put_other by exact Eb. reflexivity.
       * rewrite cache_find_put_other by exact Eb. reflexivity.
   - unfold index, held. destruct (existsb (sref0_eqb r) (t_refs s)); reflexivity.
@@ -118,36 +108,37 @@ Proof.
 Qed.
 
 (* what is held for [base] after a run is either what one of the run's touches read, or the earlier
-   entry — and then every touch of [base] in the run was of that very path *)
-Lemma fold_upd_origin ops base : forall acc p d,
-  fold_left (fun a o => upd a o base) ops acc = Some (p, d) ->
-  In (OTouch p base d) ops
-  \/ (acc = Some (p, d) /\ forall p1 d1, In (OTouch p1 base d1) ops -> p1 = p).
+   entry — and then every touch of [base] in the run was of that very path with that very stamp (the file unchanged) *)
+Lemma fold_upd_origin ops base : forall acc p v d,
+  fold_left (fun a o => upd a o base) ops acc = Some (p, v, d) ->
+  In (OTouch p base v d) ops
+  \/ (acc = Some (p, v, d) /\ forall p1 v1 d1, In (OTouch p1 base v1 d1) ops -> p1 = p /\ v1 = v).
 Proof.
-  induction ops as [|o ops IH]; simpl; intros acc p d H.
-  - right. split; [exact H | intros ? ? []].
-  - destruct (IH _ _ _ H) as [H1 | [H1 H2]]; [auto|].
-    destruct o as [p1 b1 d1 | r |]; simpl in H1.
+  induction ops as [|o ops IH]; simpl; intros acc p v d H.
+  - right. split; [exact H | intros ? ? ? []].
+  - destruct (IH _ _ _ _ H) as [H1 | [H1 H2]]; [auto|].
+    destruct o as [p1 b1 v1 d1 | r |]; simpl in H1.
     + destruct (String.eqb b1 base) eqn:Eb.
       * apply String.eqb_eq in Eb. subst b1.
-        destruct acc as [[p0 d0]|].
-        -- destruct (String.eqb p0 p1) eqn:Ep.
-           ++ apply String.eqb_eq in Ep. subst p1. inversion H1; subst.
-              right. split; [reflexivity|]. intros p2 d2 [E | Hin]; [inversion E; reflexivity | eauto].
+        destruct acc as [[[p0 v0] d0]|].
+        -- destruct (String.eqb p0 p1 && Z.eqb v0 v1) eqn:Ep.
+           ++ apply andb_prop in Ep. destruct Ep as [Ep Ev]. apply String.eqb_eq in Ep. apply Z.eqb_eq in Ev. subst p1 v1.
+              inversion H1; subst.
+              right. split; [reflexivity|]. intros p2 v2 d2 [E | Hin]; [inversion E; auto | eauto].
            ++ inversion H1; subst. auto.
         -- inversion H1; subst. auto.
-      * right. split; [exact H1|]. intros p2 d2 [E | Hin]; [|eauto].
+      * right. split; [exact H1|]. intros p2 v2 d2 [E | Hin]; [|eauto].
         inversion E; subst. rewrite String.eqb_refl in Eb. discriminate.
-    + right. split; [exact H1|]. intros p2 d2 [E | Hin]; [discriminate | eauto].
-    + right. split; [exact H1|]. intros p2 d2 [E | Hin]; [discriminate | eauto].
+    + right. split; [exact H1|]. intros p2 v2 d2 [E | Hin]; [discriminate | eauto].
+    + right. split; [exact H1|]. intros p2 v2 d2 [E | Hin]; [discriminate | eauto].
 Qed.
 
-Theorem files_fresh : forall resets s0 ops base p d,
-  held (fold_left (tstep resets true) ops s0) base = Some (p, d) ->
-  In (OTouch p base d) ops
-  \/ (held s0 base = Some (p, d) /\ forall p1 d1, In (OTouch p1 base d1) ops -> p1 = p).
+Theorem files_fresh : forall resets s0 ops base p v d,
+  held (fold_left (tstep resets true) ops s0) base = Some (p, v, d) ->
+  In (OTouch p base v d) ops
+  \/ (held s0 base = Some (p, v, d) /\ forall p1 v1 d1, In (OTouch p1 base v1 d1) ops -> p1 = p /\ v1 = v).
 Proof.
-  intros resets s0 ops base p d H. rewrite held_run in H. exact (fold_upd_origin _ _ _ _ _ H).
+  intros resets s0 ops base p v d H. rewrite held_run in H. exact (fold_upd_origin _ _ _ _ _ _ H).
 Qed.
 
 (* every emitted file is held in the cache and, when get_sources filters, some emitted reference points into it *)
@@ -165,13 +156,13 @@ Qed.
 Definition r1 : sref0 := {| s_file := "a.py"; s_line := 1; s_off := 0; s_len := 5 |}.
 Definition r2 : sref0 := {| s_file := "b.py"; s_line := 2; s_off := 6; s_len := 3 |}.
 Example stale_refs_without_reset :
-  let s := fold_left (tstep false true) [OTouch "/x/a.py" "a.py" "AAAAA"; OIndex r1; OCompileStart;
-                                          OTouch "/y/b.py" "b.py" "B"; OIndex r2] {| t_refs := []; t_cache := [] |} in
-  emit_refs (fold_left (tstep false true) [OCompileStart; OTouch "/y/b.py" "b.py" "B"; OIndex r2] s) = [r1; r2].
+  let s := fold_left (tstep false true) [OTouch "/x/a.py" "a.py" 1 "AAAAA"; OIndex r1; OCompileStart;
+                                          OTouch "/y/b.py" "b.py" 1 "B"; OIndex r2] {| t_refs := []; t_cache := [] |} in
+  emit_refs (fold_left (tstep false true) [OCompileStart; OTouch "/y/b.py" "b.py" 1 "B"; OIndex r2] s) = [r1; r2].
 Proof. vm_compute. reflexivity. Qed.
 Example stale_text_without_path_validation :
-  let s := fold_left (tstep true false) [OTouch "/x/prog.py" "prog.py" "FIRST"; OIndex r1] {| t_refs := []; t_cache := [] |} in
-  emit_files true (fold_left (tstep true false) [OCompileStart; OTouch "/y/prog.py" "prog.py" "SECOND";
+  let s := fold_left (tstep true false) [OTouch "/x/prog.py" "prog.py" 1 "FIRST"; OIndex r1] {| t_refs := []; t_cache := [] |} in
+  emit_files true (fold_left (tstep true false) [OCompileStart; OTouch "/y/prog.py" "prog.py" 1 "SECOND";
                                                     OIndex {| s_file := "prog.py"; s_line := 1; s_off := 0; s_len := 6 |}] s)
   = [("prog.py", "FIRST")].
 Proof. vm_compute. reflexivity. Qed.
